@@ -43,7 +43,8 @@ def load_natives(modules: list[str]) -> dict:
 
 
 def _work(args):
-    modules, key, repo_root, timeout_ms, seed, n_cross = args
+    modules, key, repo_root, timeout_ms, seed, n_cross = args[:6]
+    base_struct = args[6] if len(args) > 6 else None
     out = {"key": key, "obligations": [], "violations": [], "error": None, "info": {}, "cross": None, "solver_s": 0.0, "assumptions": [], "notes": []}
     try:
         import z3  # noqa
@@ -57,7 +58,7 @@ def _work(args):
         c = reg.contracts[key]
         repo = Repo(repo_root)
         t0 = time.time()
-        res, eng, entry, err = verify_contract(repo, reg, c, timeout_ms)
+        res, eng, entry, err = verify_contract(repo, reg, c, timeout_ms, base_struct)
         out["error"] = err
         if eng is not None:
             out["assumptions"] = sorted(eng.assumptions_used)
@@ -149,7 +150,7 @@ def run_t1(modules: list[str], keys: list[str] | None, prop: str, ctx, timeout_m
         baseline_digest = _b.get("vc_digest", {})
         baseline_structure = _b.get("structure", {})
     res = PropResult(prop=prop, level="proof")
-    tasks = [(modules, k, ctx.repo, timeout_ms, ctx.seed, n_cross if ctx.tier == "quick" else n_cross * 10) for k in keys]
+    tasks = [(modules, k, ctx.repo, timeout_ms, ctx.seed, n_cross if ctx.tier == "quick" else n_cross * 10, baseline_structure.get(k)) for k in keys]
     mpctx = mp.get_context("spawn")
     with mpctx.Pool(min(ctx.jobs, max(1, len(tasks))), maxtasksperchild=1) as pool:  # one fresh process (fresh z3 context) per contract: same formulas, same solver run, every time
         outs = pool.map(_work, tasks, chunksize=1)
